@@ -79,10 +79,15 @@ MOD_HEADER = ("import functools\n\n\n"
               "def plain_deco(fn):\n    def wrapper(*a, **k):\n        return fn(*a, **k)\n    return wrapper\n")
 
 # whole-file mutations
+# the package itself binds the names of things that live in its submodules to UNRELATED objects: a lookup that falls
+# back from a removed submodule to its package must not find them
+PKG_NAMES = ("class L:\n    pass\n\n\nclass G:\n    pass\n\n\ndef leaf_f(x):\n    return x\n\n\n"
+             "def g(x):\n    return x\n")
+
 FILE_MUTS = {
     "mod:gone": lambda files: [files.pop(k) for k in list(files) if k == "fxpkg/gone.py"],
     "mod:sub": lambda files: [files.pop(k) for k in list(files) if k.startswith("fxpkg/sub/")],
-    "top": lambda files: files.__setitem__("fxpkg/__init__.py", ""),
+    "top": lambda files: files.__setitem__("fxpkg/__init__.py", PKG_NAMES),
     "mod:fxtop": lambda files: [files.pop(k) for k in list(files) if k == "fxtop.py"],
     "broken": lambda files: files.__setitem__("fxpkg/broken.py", "def broken_f(x):\n    return x +\n"),
 }
@@ -104,7 +109,7 @@ def _blocks(blocks, muts, sep):
 def files_for(muts):
     muts = set(muts)
     files = {
-        "fxpkg/__init__.py": "def top(a):\n    return a\n",
+        "fxpkg/__init__.py": PKG_NAMES + "\n\ndef top(a):\n    return a\n",
         "fxpkg/kinds.py": _blocks(KINDS_BLOCKS, muts, "\n\n"),
         "fxpkg/gone.py": "class G:\n    pass\n\n\ndef g(x):\n    return x\n",
         "fxpkg/sub/__init__.py": "",
